@@ -89,6 +89,18 @@ Theorem C20_size_query_protocol :
 Proof. exact size_query_protocol. Qed.
 Print Assumptions C20_size_query_protocol.
 
+(* the helpers read from c/internal/internal.h compute exactly the executable specification of
+   the convention (spec_helper, which does not depend on the code) *)
+Theorem C20_helpers_meet_spec :
+  (forall A (src : list A) buf size,
+      copy_vector_to_array (hcode HCopyVector) src buf size = spec_helper (hc_msg (hcode HCopyVector)) src buf size) /\
+  (forall A (src : list A) buf size,
+      move_vector_to_array_of_c_ptrs (hcode HMoveVector) src buf size = spec_helper (hc_msg (hcode HMoveVector)) src buf size) /\
+  (forall str buf size,
+      copy_string_to_array (hcode HCopyString) str buf size = spec_helper (hc_msg (hcode HCopyString)) (str ++ [NUL]) buf size).
+Proof. exact helpers_meet_spec. Qed.
+Print Assumptions C20_helpers_meet_spec.
+
 (* ---- the thread-local handler ------------------------------------------------------------ *)
 
 Theorem C20_handler_matches : handler_ok.
